@@ -8,17 +8,17 @@
    lifecycle.Controller.Reconcile does on such a history, as frames (stored object before, calls
    made with their outcome, stored object after, node after).  The model is tied to /repo by the
    correspondence check of C14/Check.v on every run. *)
-From KV Require Import C14.Model C14.Spec C14.Proofs C14.Proofs2 C14.Proofs3.
+From KV Require Import C14.Model C14.Spec C14.Proofs C14.Proofs2 C14.Proofs3 C14.Proofs4 C14.Proofs5.
 
 (* The boolean oracle that the check evaluates on the implementation's observed frames decides
    the property as stated in C14/Spec.v. *)
-Theorem oracle_decides : forall k guard fs, holds_b k guard fs = true <-> holds k guard fs.
+Theorem oracle_decides : forall k g1 g3 fs, holds_b k g1 g3 fs = true <-> holds k g1 g3 fs.
 Proof. exact holds_b_iff. Qed.
 Print Assumptions oracle_decides.
 
 (* At most one successful provider Create per NodeClaim, for every history without a process
-   restart in which the launch cache entry is within its TTL whenever the NodeClaim is
-   reconciled: every fault plan (failed status writes included), every staleness of the cached
+   restart in which the launch cache entry is within its TTL whenever a reconcile consults
+   it: every fault plan (failed status writes included), every staleness of the cached
    object, every order of environment events. *)
 Theorem create_at_most_once : forall k ops,
   no_restart ops -> no_expiry k ops = true -> (total_creates (trace k ops) <= 1)%nat.
@@ -66,43 +66,88 @@ Theorem capacity_error_deletes : forall k ops,
 Proof. exact capacity_error_deletes_l. Qed.
 Print Assumptions capacity_error_deletes.
 
-(* Conditions, inside one reconcile, for every fault plan and every state (partial: proved for the
-   object a reconcile computes and writes; that the stored object stays ordered across merges of
-   writes computed from stale reads is checked by the oracle on every implementation history but
-   not proved). *)
+(* A purely syntactic sufficient condition for [no_expiry]: every reconcile reads the stored object
+   (an informer refresh since the last API write to the NodeClaim) and consecutive reconciles are at
+   most g seconds apart with g + 1 <= TTL (the reconcile itself may sleep one second). *)
+Theorem no_expiry_if_paced : forall k g ops,
+  g + 1 <= k_ttl k -> paced g 0 true ops = true -> no_expiry k ops = true.
+Proof. exact paced_sufficient. Qed.
+Print Assumptions no_expiry_if_paced.
+
+Theorem create_at_most_once_paced : forall k g ops,
+  g + 1 <= k_ttl k -> no_restart ops -> paced g 0 true ops = true -> (total_creates (trace k ops) <= 1)%nat.
+Proof. exact paced_at_most_once. Qed.
+Print Assumptions create_at_most_once_paced.
+
+(* Every condition of the STORED NodeClaim that turns True in any frame of any history has its
+   observable precondition in that frame (Launched: an instance was created; Registered: node present,
+   synced, unregistered taint removed; Initialized: node Ready, startup and ephemeral taints gone,
+   requested extended resource reported).  Unconditional: every fault plan, stale reads and the
+   status writes computed from them, restarts, cache expiry. *)
+Theorem conditions_justified : forall k ops, all_justified k 0 (trace k ops).
+Proof. exact conditions_justified_l. Qed.
+Print Assumptions conditions_justified.
+
+(* The stored NodeClaim has Registered only with Launched and Initialized only with Registered after
+   every frame of every history in which the launch cache entry has not expired when it is consulted
+   (restarts, faults, stale status merges allowed).  The extra invariant behind it: a stored provider id
+   implies a live cache entry or a cached object that is already Launched (or that will be re-read
+   through the finalizer patch), and a JSON merge patch writes the condition list as a whole. *)
+Theorem conditions_ordered : forall k ops,
+  no_expiry k ops = true -> Forall (fun f => ordered_opt (fr_post f)) (trace k ops).
+Proof. exact conditions_ordered_l. Qed.
+Print Assumptions conditions_ordered.
+
+(* Without the premise it is refuted: a reconcile on a read older than the cache TTL whose Create and
+   liveness Delete both fail overwrites Launched=True with Unknown next to the stored provider id;
+   the next reconcile registers the node: Registered=True, Launched=Unknown(LaunchFailed). *)
+Theorem conditions_ordered_refuted :
+  option_map (fun c => (c_l c, c_r c)) (pc (final k0 order_witness)) = Some (LFailed, RTrue) /\
+  no_expiry k0 order_witness = false /\ no_restart order_witness.
+Proof. exact order_refuted. Qed.
+Print Assumptions conditions_ordered_refuted.
+
+(* The whole property as the oracle states it holds of every history of the model, with the guards
+   computed from the history. *)
+Theorem conditions_ordered_and_justified_and_all : forall k ops,
+  holds k (no_restart_b ops && no_expiry k ops) (no_expiry k ops) (trace k ops).
+Proof. exact model_holds. Qed.
+Print Assumptions conditions_ordered_and_justified_and_all.
+
+(* The per-reconcile lemmas the global theorems rest on (any state, any fault plan). *)
 
 (* Launched turns True only with an instance: created by this reconcile or remembered by the launch
    cache; the provider id is set together with it. *)
-Theorem launched_justified_partial : forall k pl r,
+Theorem launched_justified_reconcile : forall k pl r,
   c_l (r_im r) <> LTrue -> c_l (r_im (launch k pl r)) = LTrue ->
   (cache_hit k r <> None \/ launch_ex k pl r = [ECreate POk]) /\ c_pid (r_im (launch k pl r)) <> None.
 Proof. exact launch_justified. Qed.
-Print Assumptions launched_justified_partial.
+Print Assumptions launched_justified_reconcile.
 
 (* Registered turns True only when exactly one node carries the claim's provider id and that node
    is synced (finalizer, owner, labels) with the unregistered taint removed and the registered
    label set. *)
-Theorem registered_justified_partial : forall k pl r,
+Theorem registered_justified_reconcile : forall k pl r,
   c_r (r_im r) <> RTrue -> c_r (r_im (registration k pl r)) = RTrue ->
   node_registered_ok (r_nd (registration k pl r)) = true /\ c_pid (r_im r) <> None.
 Proof. exact registration_justified. Qed.
-Print Assumptions registered_justified_partial.
+Print Assumptions registered_justified_reconcile.
 
 (* Initialized turns True only when Registered is True and the node is Ready, without the startup
    taint, without ephemeral taints (the unregistered taint included), with the requested extended
    resource reported, and labelled initialized. *)
-Theorem initialized_justified_partial : forall k pl r,
+Theorem initialized_justified_reconcile : forall k pl r,
   c_i (r_im r) <> ITrue -> c_i (r_im (initialization k pl r)) = ITrue ->
   node_initialized_ok k (r_nd (initialization k pl r)) = true /\ c_r (r_im r) = RTrue.
 Proof. exact initialization_justified. Qed.
-Print Assumptions initialized_justified_partial.
+Print Assumptions initialized_justified_reconcile.
 
 (* The object a reconcile writes has Registered only with Launched and Initialized only with
    Registered, given that the object it read has (and carries a provider id only when Launched). *)
-Theorem conditions_ordered_partial : forall k pl r,
+Theorem conditions_ordered_reconcile : forall k pl r,
   ordered (r_im r) -> linked (r_im r) -> ordered (r_im (subs k pl r)).
 Proof. exact subs_ordered. Qed.
-Print Assumptions conditions_ordered_partial.
+Print Assumptions conditions_ordered_reconcile.
 
 (* Non-vacuity. *)
 
@@ -132,3 +177,9 @@ Proof. vm_compute. split; reflexivity. Qed.
 (* the real durations satisfy the inequality *)
 Example real_timing : timing_ok k0 = true.
 Proof. reflexivity. Qed.
+
+(* paced histories exist (and a reconcile on a stale read is not paced) *)
+Example paced_example :
+  paced 900 0 true [Rec okp; Sync; Tick 900; NodeAppear true; Rec okp; Sync; NReady true; Rec okp] = true /\
+  paced 900 0 true [Rec okp; Rec okp] = false /\ paced 900 0 true [Rec okp; Sync; Tick 901; Rec okp] = false.
+Proof. vm_compute. repeat split; reflexivity. Qed.
